@@ -313,7 +313,7 @@ def range_reader(ctx, rule):
     ctx.floor(rule, fn, "RawToken literals", len(aggs), 1)
     for bi, si, a in aggs:
         sh = q.shape(a.field("is_range"))
-        ok = sh == "Option::unwrap_or_default(Option::map(BitSlice::get(var:BitVec<u8>,%s.0),\u03bb(p1)))" % INNER_ITEM
+        ok = sh == "Option::unwrap_or_default(BitSlice::get(var:BitVec<u8>,%s.0))" % INNER_ITEM
         ctx.check(ok, rule, fn, "is_range:bit-by-segment-index",
                   "is_range is read with the non-panicking BitSlice::get at the segment's enumerate() index within its line (missing bits read as false)", ctx.site(body, bi, si), detail=sh)
         dl = q.shape(a.field("dst_line"))
@@ -325,6 +325,9 @@ def range_reader(ctx, rule):
     inner = [sh for l in body.var_names for sh, _, _ in q.def_shapes(body, l, {}) if sh.startswith("IntoIterator::into_iter(Iterator::enumerate(str::split(")]
     ctx.check(inner == ["IntoIterator::into_iter(Iterator::enumerate(str::split(%s.1.0,44)))" % OUTER_ITEM], rule, fn, "split-segments",
               "segments are the ','-separated pieces of the line, enumerated from 0", detail=str(inner))
+    pcalls = [bi for bi, t in q.calls_to(body, "vlq::parse_vlq_segment_into")]
+    ctx.check(len(pcalls) == 1 and has_fact(body, pcalls[0], {}, ("false", "str::is_empty(%s.1)" % INNER_ITEM, None)), rule, fn, "segment:empty-skipped",
+              "an empty segment (',,' or a trailing ',') is skipped, not handed to the VLQ reader (which rejects empty input)")
     calls = q.calls_to(body, "decoder::decode_rmi")
     ok = len(calls) == 1 and q.shape(body.expr_of_call(calls[0][1])) == "decoder::decode_rmi(%s.1.1,var:BitVec<u8>)" % OUTER_ITEM
     ctx.check(ok, rule, fn, "decode_rmi:per-line", "the bitfield of the zipped rangeMappings piece is decoded once per line")
@@ -442,8 +445,13 @@ def dispatch(ctx, rule):
         ctx.check(hit == [w], rule, fn, "dispatch:sections=%d,x_facebook_sources=%d" % (s, x),
                   "with sections %s and x_facebook_sources %s the document is decoded by %s only" % ("present" if s else "absent", "present" if x else "absent", q.nice(w)), detail=str(hit))
     lits = sorted(q.shape(b.expr_of_rvalue(s["rv"])) for bi, si, s, it in b.locations() if not it and s["k"] == "assign" and s["rv"]["k"] == "agg" and s["rv"].get("adt") == "types::DecodedMap")
-    ctx.check(lits == ["DecodedMap::Hermes{0:try(hermes::decode_hermes(arg1))}", "DecodedMap::Index{0:try(decoder::decode_index(arg1))}", "DecodedMap::Regular{0:try(decoder::decode_regular(arg1))}"], rule, fn, "variants",
-              "each decoder's result is wrapped in the variant of its kind", detail=str(lits))
+    calls = [q.shape(b.expr_of_call(t)) for bi, t in b.calls()]
+    wrapped = []
+    for kind, dec in (("Hermes", "hermes::decode_hermes"), ("Index", "decoder::decode_index"), ("Regular", "decoder::decode_regular")):
+        ok = "DecodedMap::%s{0:try(%s(arg1))}" % (kind, dec) in lits or "Result::map(%s(arg1),fn:DecodedMap::%s)" % (dec, kind) in calls
+        wrapped.append(kind if ok else None)
+    others = [l for l in lits if not any(l == "DecodedMap::%s{0:try(%s(arg1))}" % kd for kd in (("Hermes", "hermes::decode_hermes"), ("Index", "decoder::decode_index"), ("Regular", "decoder::decode_regular")))]
+    ctx.check(None not in wrapped and not others, rule, fn, "variants", "each decoder's result is wrapped in the variant of its kind", detail=str(lits) + str([c for c in calls if "map(" in c]))
 
 
 def handover(ctx, rule):
